@@ -72,6 +72,14 @@ CHECKS = {
         "Trusted: reference mapping; fit itself is not judged here.",
         "DESIGN.md §4 C05",
     ),
+    "C02": (
+        "PBT with direct postconditions on public outputs: label counts/frequencies (exact Fractions), missing-value "
+        "handling and train/dev rank agreement of transform(X_train) / transform(X_dev)",
+        "Generated samples x Binary/Continuous/MulticlassCarver x all parameters with identical, perturbed and "
+        "independent dev samples; no model, only what a user can observe. Exploration over bounded sizes.",
+        "Trusted: integer counting and Fraction arithmetic. Exact ties of mean target are not judged for rank agreement.",
+        "DESIGN.md §4 C02",
+    ),
     "C04": (
         "PBT with a reference oracle: table-first generated samples, transform(X_train) compared with the "
         "mapping recomputed from values_orders (list+content) only; metamorphic string-form probe",
